@@ -623,6 +623,8 @@ namespace R
             case NOT_AT: return not_at( A0, pos );
             case SEQ: return seq( A, B, pos );
             case SOR: return sor( A, B, pos );
+            case SEQ1:
+            case SOR1: return A( pos );
             case SEQ3: return seq( A, BC, pos );
             case SOR3: return sor( A, [ = ]( int q ) { return sor( B, C, q ); }, pos );
             case STAR2: return star( AB, pos );
